@@ -51,6 +51,16 @@ CHECKS = {
               "under a field-based abstraction."),
         note=TRUST + "; cells of one tree are merged per attribute; pull precedes receive_reward in each round",
         ref="DESIGN.md section 4-C15"),
+    "C17": dict(
+        engine="E6 intervals",
+        technique="abstract interpretation of f over intervals (mpmath.iv, outward rounding) + multilinear vertex bound + purity/guard scans",
+        text=("Static, sound up to the stated 1e-9 slack: f(x) - fmax <= 1e-9 for every real x of the documented domain (and every "
+              "DoubleSine parameter in range) by interval branch-and-bound combined with an exact vertex bound of the multilinear form "
+              "in the expression's non-polynomial atoms; enclosure finite; fmax attained at the documented maximiser (Garland within "
+              "0.003); f writes nothing, draws nothing and reads only constructor-assigned attributes; the ValueError guard on len(x) "
+              "comes first and matches the indices used. Last-ulp behaviour of libm is outside the claim."),
+        note=TRUST + "; mpmath.iv encloses elementary functions; path conditions dropped (superset of inputs)",
+        ref="DESIGN.md section 4-C17"),
 }
 
 NOT_YET = "checker under construction in this round (see DESIGN.md section 0 for the clause it will decide)"
